@@ -130,7 +130,11 @@ fn run(ctx: &mut Ctx) {
                     5 => {
                         // corrupted word: neither timestamp, marker nor start of a scaler block
                         let k = rng.usize(items.len());
-                        let bad = [rng.next() as u8, rng.next() as u8, rng.next() as u8, *rng.pick(&[0x00u8, 0x7F, 0x80 | 59, 0x80 | 126, 0xFD, 0x3C])];
+                        let mut bad = [rng.next() as u8, rng.next() as u8, rng.next() as u8, *rng.pick(&[0x00u8, 0x7F, 0x80 | 59, 0x80 | 126, 0xFD, 0x3C])];
+                        if rng.chance(0.4) {
+                            // near-miss scaler tags: top byte 0xFE but not the tag 3C 00 00 FE
+                            bad = *rng.pick(&[[0x3C, 0, 1, 0xFE], [0x3C, 1, 0, 0xFE], [1, 0, 0, 0xFE], [0x3D, 0, 0, 0xFE], [0x3B, 0, 0, 0xFE], [0, 0, 0, 0xFE], [2, 0, 0, 0xFE], [0x3C, 0, 0x80, 0xFE], [0xFF, 0xFF, 0xFF, 0xFE]]);
+                        }
                         fault_desc = format!("corrupted word {:02x?} at item {}", bad, k);
                         items.insert(k, Item { bytes: bad.to_vec(), edge: None, marker: None });
                         must_fail = true;
@@ -299,6 +303,52 @@ fn run(ctx: &mut Ctx) {
             ctx.count(&format!("runs matching the model ({})", if fault == 0 { "no fault" } else { "with a tolerated fault" }));
         }
         let _ = std::fs::remove_dir_all(&dir);
+    });
+    // ---- every byte position of a file boundary around and inside a scaler block (and inside entries): the run is
+    // the same stream each time, only the cut between file 0 and file 1 moves
+    ctx.cases("file-cut-sweep", ctx.tier.pick(2, 8), |ctx, i, rng| {
+        let hw = 3 + rng.below(4) as u32;
+        let mut items = stream(rng, hw, 40, 0.1);
+        // make sure there is a scaler block somewhere after marker 0
+        let m0 = items.iter().position(|it| it.marker == Some(0)).unwrap();
+        let at = m0 + 1 + rng.usize(items.len() - m0 - 1);
+        items.insert(at, Item { bytes: scaler_block(rng), edge: None, marker: None });
+        let expected = expected_rows("cb01", &items).unwrap();
+        let bytes: Vec<u8> = items.iter().flat_map(|it| it.bytes.clone()).collect();
+        let block_start: usize = items[..at].iter().map(|it| it.bytes.len()).sum();
+        let lo = block_start.saturating_sub(9);
+        let hi = (block_start + 244 + 9).min(bytes.len());
+        for cut in lo..=hi {
+            ctx.eval();
+            let dir = workdir(ctx, i * 1000 + cut as u64);
+            let mk = |data: &[u8], t0: u32, name: &str| {
+                let mut evs = Vec::new();
+                let mut serial = 0;
+                for c in data.chunks(97) {
+                    serial += 1;
+                    evs.push(Event { id: 4, serial, timestamp: 0, banks: vec![("CBF1".to_string(), c.to_vec())] });
+                }
+                let p = dir.join(name);
+                midas::write(&p, &midas::file_bytes(777, t0, t0 + 1, &evs));
+                p
+            };
+            let f0 = mk(&bytes[..cut], 100, "a.mid");
+            let f1 = mk(&bytes[cut..], 101, "b.mid.lz4");
+            let out = Command::new(&exe).arg(&f1).arg(&f0).arg("-o").arg(dir.join("out")).output();
+            let Ok(out) = out else { return };
+            let csv = std::fs::read_to_string(dir.join("out.csv")).unwrap_or_default();
+            let rows: Vec<Row> = csv.lines().skip(3).map(|l| { let f: Vec<&str> = l.split(',').collect(); (f[0].to_string(), f[1].parse().unwrap_or(255), f.get(2) == Some(&"true"), if f.get(3).map(|s| s.is_empty()).unwrap_or(true) { None } else { f[3].parse().ok() }) }).collect();
+            let _ = std::fs::remove_dir_all(&dir);
+            if !out.status.success() {
+                ctx.violation("program failed on a well-formed stream", format!("file boundary at byte {} of the board stream ({} bytes into a scaler block starting at {}): {}", cut, cut as i64 - block_start as i64, block_start, String::from_utf8_lossy(&out.stderr).lines().last().unwrap_or("")), json!({"stream": hex(&bytes), "cut": cut}));
+                return;
+            }
+            if rows != expected {
+                ctx.violation("rows change with the position of the file boundary", format!("file boundary at byte {}: {} rows, expected {}", cut, rows.len(), expected.len()), json!({"stream": hex(&bytes), "cut": cut}));
+                return;
+            }
+            ctx.count("file-boundary positions swept around / inside a scaler block");
+        }
     });
     ctx.require("rows compared", 1000);
     ctx.require("runs matching the model (no fault)", 10);
